@@ -102,6 +102,18 @@ func init() {
 		}
 		c17Alphabet = append(c17Alphabet, c17Pkt{name, raw, nil, pusi})
 	}
+	// payloads that MEAN something: a PES packet start that announces fewer bytes than the payload holds
+	// (PES_packet_length 5), one that announces more (0x0400), and a PSI section start behind a pointer_field
+	pes := func(n int, l uint16) []byte {
+		b := fill(n, 0x21)
+		copy(b, []byte{0x00, 0x00, 0x01, 0xE0, byte(l >> 8), byte(l), 0x84, 0x80, 0x05, 0x21, 0x00, 0x01, 0x00, 0x01})
+		return b
+	}
+	add("PUSI+PES-start(PES_packet_length 5)+184", true, pes(184, 5), false)
+	add("PUSI+PES-start(PES_packet_length 0x400)+20", true, pes(20, 0x400), false)
+	psi := fill(184, 0x31)
+	copy(psi, []byte{0x00, 0x02, 0xB1, 0x20, 0x00, 0x01, 0xC1, 0x00, 0x00, 0xE1, 0x00, 0xF0, 0x00})
+	add("PUSI+PSI-section-start(section_length 288)+184", true, psi, false)
 }
 
 type c17State struct {
@@ -318,6 +330,8 @@ type c17Long struct {
 	Start int `json:"start_packet"`
 	Cont  int `json:"continuation_packet"`
 	K     int `json:"continuations"`
+	// ResetFirst: Reset directly after the first (long) unit, followed by a short unit, before the rest
+	ResetFirst bool `json:"reset_after_first_unit,omitempty"`
 }
 
 // c17CheckLong drives one long accumulation: start packet, K continuation packets, a restart,
@@ -328,6 +342,10 @@ func c17CheckLong(c c17Long) engine.Result {
 	hist := []int{c.Start}
 	for i := 0; i < c.K; i++ {
 		hist = append(hist, c.Cont)
+	}
+	if c.ResetFirst {
+		// Reset right after the long unit (whatever storage it grew must come back empty), then a short unit
+		hist = append(hist, len(c17Alphabet), c.Start, c.Cont, 3)
 	}
 	// a second long unit on the same accumulator (restart by the next unit start), with the other
 	// 184-byte payload pattern so that recycled storage shows up in Packets()/Bytes()
@@ -357,7 +375,7 @@ func init() {
 		Scenarios: []engine.ScenarioRunner{
 			&engine.BFS[*c17State]{
 				Name:  "histories",
-				Rule:  "BFS over all histories of {WritePacket(p) for 12 packets (PUSI/continuation x 184-byte payloads A/B, 3-byte and 1-byte payloads behind adaptation-field stuffing, AF-only with and without PUSI, AF length 183 with payload flag, adaptation_field_control 00 with and without PUSI), Reset} from a new accumulator, one run per completion predicate (never; done at >=1/184/185/368 bytes; error at >=184/368; done-then-error; error-after-done); after every call Bytes(), Packets(), the predicate's argument, the returned error class and input immutability are compared with a list model, returned slices are overwritten as aliasing probes, and after Reset the canonical state must equal a new accumulator's; canonical key = private state (hook) + bytes + packets + model flags; depth 6 (quick) / 8 (thorough)",
+				Rule:  "BFS over all histories of {WritePacket(p) for 15 packets (unit starts carrying a PES packet start that announces fewer / more bytes than the payload holds and a PSI section start; PUSI/continuation x 184-byte payloads A/B, 3-byte and 1-byte payloads behind adaptation-field stuffing, AF-only with and without PUSI, AF length 183 with payload flag, adaptation_field_control 00 with and without PUSI), Reset} from a new accumulator, one run per completion predicate (never; done at >=1/184/185/368 bytes; error at >=184/368; done-then-error; error-after-done); after every call Bytes(), Packets(), the predicate's argument, the returned error class and input immutability are compared with a list model, returned slices are overwritten as aliasing probes, and after Reset the canonical state must equal a new accumulator's; canonical key = private state (hook) + bytes + packets + model flags; depth 6 (quick) / 8 (thorough)",
 				Inits: func(r *engine.Run) []int { return seq(0, len(c17Preds)-1) },
 				NOps:  func(r *engine.Run) int { return len(c17Alphabet) + 1 },
 				New:   c17New,
@@ -384,22 +402,29 @@ func init() {
 			},
 			&engine.Enum[c17Long]{
 				Name: "long-accumulations",
-				Rule: "for every predicate x start packet {PUSI+184A, PUSI+3} x continuation packet {184A, 184B, 3-byte, 1-byte} x K in 0..40 and {254..257, 355..358} (thorough 0..400): start, K continuations, a second unit of K continuations with alternating payloads, restart with another unit start, two continuations, Reset, start and up to 40 continuations — every step judged by the list model (covers accumulated sizes up to 7.5 KiB / 74 KiB, beyond the BFS depth)",
+				Rule: "for every predicate x start packet {PUSI+184A, PUSI+3, PES start announcing 5 bytes / 0x400 bytes, PSI section start} x continuation packet {184A, 184B, 3-byte, 1-byte} x K in 0..40 and {254..257, 300, 340, 347..350, 355..358, 400} (thorough 0..400): start, K continuations, [Reset directly after this long unit and a short unit,] a second unit of K continuations with alternating payloads, restart with another unit start, two continuations, Reset, start and up to 40 continuations — every step judged by the list model (covers accumulated sizes up to 7.5 KiB / 74 KiB, beyond the BFS depth)",
 				Gen: func(r *engine.Run, emit func(c17Long)) {
 					maxK := 40
 					if r.Thorough() {
 						maxK = 400
 					}
 					for p := range c17Preds {
-						for _, st := range []int{0, 4} {
+						for _, st := range []int{0, 4, 12, 13, 14} {
 							for _, ct := range []int{2, 3, 5, 6} {
+								if st >= 12 && ct != 2 && ct != 6 {
+									continue
+								}
 								for k := 0; k <= maxK; k++ {
-									emit(c17Long{p, st, ct, k})
+									emit(c17Long{p, st, ct, k, false})
+									if k%8 == 0 || r.Thorough() {
+										emit(c17Long{p, st, ct, k, true})
+									}
 								}
 								if !r.Thorough() {
-									// the counts next to 2^8 packets and 2^16 accumulated bytes
-									for _, k := range []int{254, 255, 256, 257, 355, 356, 357, 358} {
-										emit(c17Long{p, st, ct, k})
+									// the counts next to 2^8 packets and 2^16 accumulated bytes, and a sweep up to 400
+									for _, k := range []int{254, 255, 256, 257, 300, 340, 347, 348, 349, 350, 355, 356, 357, 358, 400} {
+										emit(c17Long{p, st, ct, k, false})
+										emit(c17Long{p, st, ct, k, true})
 									}
 								}
 							}
